@@ -2,6 +2,7 @@
 from vlib.pyvc.unit import contract_unit
 from props._common import pyvc_units
 from contracts import runner, system, evalglue, lazyops, specs
+from contracts import collections as colls
 
 LEVEL = 'proof'
 TECHNIQUE = ('pyvc with a ghost call log: the real choose_overload must '
@@ -9,16 +10,21 @@ TECHNIQUE = ('pyvc with a ghost call log: the real choose_overload must '
              'any get_delegate, and hand the evaluated values to every '
              'candidate (shape family); ghost-log contracts on the lazy '
              'operators (and/or, ?., switch family, coalesce) and on '
-             'MappingRuleExpression / Lambda glue')
+             'MappingRuleExpression / Lambda glue; ghost application '
+             'counters ncalls(f) with loop invariants for the per-element '
+             'lambdas of generate, indexWhere, lastIndexWhere, any, all, '
+             'distinct, splitWhere, sliceWhere, accumulate')
 LEVEL_TEXT = ('The evaluation log is a ghost sequence appended to by every '
               'application of an opaque expression / callback. '
               'Postconditions state the exact log: eager arguments once each '
               'left to right before resolution by type, independent of the '
               'number of candidates and layers; short-circuit operators '
               'never evaluate the operand they do not select.')
-LEVEL_NOTE = ('Per-element lambda multiplicity inside query operators is '
-              'covered with C13/C14 contracts where present; orderBy '
-              'comparator multiplicity is not claimed. Shapes bound the '
+LEVEL_NOTE = ('Per-element lambda multiplicity is proved for the hand-written '
+              'loops listed above; where/select/takeWhile/skipWhile/'
+              'aggregate delegate to builtins (T-lazy); join, selectMany, '
+              'groupBy, generateMany and the orderBy comparator multiplicity '
+              'are not claimed. Shapes bound the '
               'numbers of candidates and arguments, not their content.')
 
 
@@ -32,4 +38,8 @@ def units(ctx):
     # keyword mapping returned by map_args must use the same keys
     us += [contract_unit(c, world_setup=specs.setup)
            for c in specs.binding_contracts(ctx.tier)]
+    # per-element lambdas: ghost application counters against the number of
+    # elements consumed / emitted (loop invariants)
+    us += [contract_unit(c, world_setup=colls.setup_mem)
+           for c in colls.lambda_contracts()]
     return us
